@@ -142,11 +142,21 @@ CONFIG = {
         "level": "other", "proof": True, "rtc": True,
         "explanation": "Proved: writer/reader wiring for the five artefacts (load_X after save_X returns the value of exactly the "
                        "corresponding getter; one file written) under the round-trip contract of np.save/np.load and "
-                       "save_npz/load_npz. Bounded: real round trips compared bitwise (values, pattern, entry order) and generated "
-                       "GROMACS xvg / csv energy tables over the stated header shapes, cell by cell.",
+                       "save_npz/load_npz. Proved for the energy reader, for a file of any length whose lines are as GROMACS writes them: "
+                       "EnergyReader._get_column_names returns 'Time [ps]' followed by the legend names of the header in file order, one per "
+                       "legend line, scanning exactly up to the first data line, file opened once and closed (loop invariant with a ghost "
+                       "legend counter; s0..s9 prefixes); load_energy parses that file with skiprows=13, comment '@', no header row, the "
+                       "scanned names and the exact float parser (csv: index column 0, exact parser; other extensions rejected); "
+                       "load_single_energy_column is to_numpy of the named column with nothing in between (row order); lemma: under the "
+                       "assumed pandas semantics skiprows=13 + '@' comments keeps exactly the data lines iff #hash <= 13 <= #header lines "
+                       "(both must-fail twins refuted). Bounded: real round trips compared bitwise (values, pattern, entry order) and "
+                       "generated GROMACS xvg / csv energy tables over the stated header shapes, cell by cell.",
         "trusted_base": ["np.save/np.load and scipy.sparse.save_npz/load_npz round trip: value, format, indices/indptr/data (assumed)",
-                         "pandas.read_csv semantics (exercised bounded, not proved)"],
-        "assumptions": ["EnergyReader._get_column_names / load_energy are checked bounded only"],
+                         "pandas.read_csv semantics (assumed in the lemma, exercised bounded)",
+                         "ASSUMED reading of a GROMACS text line into its kind / series / legend name: the string predicates startswith('@'), "
+                         "startswith('#'), startswith('@ s<i> legend') and split('\"')[-2] are tied to that reading as a precondition"],
+        "assumptions": ["what pandas does with the options is assumed; the character-level string semantics of the line predicates is a precondition, "
+                        "exercised by the bounded stage on generated files"],
     },
 }
 
